@@ -44,50 +44,52 @@ Theorem C25_hit_returns_current :
 Proof. exact reachable_hit_current. Qed.
 Print Assumptions C25_hit_returns_current.
 
-(** a successful miss is followed by a hit for every query with the same signature *)
+(** a successful miss is followed by a hit for every query with the same signature (capacity other
+    than 0: a cache of capacity 0 stores nothing) *)
 Theorem C25_hit_after_miss :
   forall (K : Type) (keqb : K -> K -> bool), (forall a b : K, keqb a b = true <-> a = b) ->
   forall (R db query stmt : Type) (exec : db -> query -> option R) (apply : db -> stmt -> db)
          (sig : query -> K) (extract : query -> list tname) (inval : stmt -> option tname) (cap : Z)
          (d : db) (c : cache K R) (q : query) (v : option K) (st' : state K R db) (r : R) (q' : query),
+  cap <> 0 ->
   step K keqb R db query stmt exec apply sig extract inval cap (d, c) (Read q) v = Some (st', Miss (Some r)) ->
   sig q' = sig q ->
   forall v', step K keqb R db query stmt exec apply sig extract inval cap st' (Read q') v' = Some (st', Hit r).
 Proof. exact hit_after_miss. Qed.
 Print Assumptions C25_hit_after_miss.
 
-(** ** 2. Capacity and eviction *)
+(** ** 2. Capacity and eviction: the size never exceeds the capacity, for every capacity a usize can hold
+    (since the repair fix: capacity-zero-holds-one-entry; before it the bound was [max cap 1]) *)
 Theorem C25_size_bound :
   forall (K : Type) (keqb : K -> K -> bool) (R db query stmt : Type) (exec : db -> query -> option R)
          (apply : db -> stmt -> db) (sig : query -> K) (extract : query -> list tname)
          (inval : stmt -> option tname) (cap : Z) (ops : list (op query stmt * option K))
          (d : db) (c : cache K R) (d' : db) (c' : cache K R) (obs0 : list (obs R)),
-  size K R c <= Z.max cap 1 ->
+  0 <= cap -> size K R c <= cap ->
   run K keqb R db query stmt exec apply sig extract inval cap (d, c) ops = Some (d', c', obs0) ->
-  size K R c' <= Z.max cap 1.
+  size K R c' <= cap.
 Proof. exact run_size_bound. Qed.
 Print Assumptions C25_size_bound.
 
-(** [size <= capacity] for every capacity >= 1 ... *)
 Theorem C25_insert_size_le_cap :
   forall (K : Type) (keqb : K -> K -> bool) (R : Type) (cap : Z) (c : cache K R) (k : K) (e : entry R)
          (v : option K) (c' : cache K R),
-  1 <= cap -> insert K keqb R cap c k e v = Some c' -> size K R c <= cap -> size K R c' <= cap.
+  0 <= cap -> insert K keqb R cap c k e v = Some c' -> size K R c <= cap -> size K R c' <= cap.
 Proof. exact insert_size_le_cap. Qed.
 Print Assumptions C25_insert_size_le_cap.
 
-(** ... and false for capacity 0: an empty map "at capacity" evicts nothing and then grows
-    (known finding capacity-zero-holds-one-entry) *)
-Theorem C25_size_le_cap_refuted :
-  exists (c c' : cache Z Z) (k : Z) (e : entry Z),
-    insert Z Z.eqb Z 0 c k e None = Some c' /\ size Z Z c <= 0 /\ ~ (size Z Z c' <= 0).
-Proof. exact size_le_cap_refuted. Qed.
-Print Assumptions C25_size_le_cap_refuted.
+(** the former refutation at capacity 0, now positive: such a cache stores nothing and evicts nothing *)
+Theorem C25_capacity_zero_holds_nothing :
+  forall (K : Type) (keqb : K -> K -> bool) (R : Type) (c : cache K R) (k : K) (e : entry R)
+         (v : option K) (c' : cache K R),
+  insert K keqb R 0 c k e v = Some c' -> c' = c /\ v = None.
+Proof. exact capacity_zero_holds_nothing. Qed.
+Print Assumptions C25_capacity_zero_holds_nothing.
 
 Theorem C25_insert_evicts_iff :
   forall (K : Type) (keqb : K -> K -> bool) (R : Type) (cap : Z) (c : cache K R) (k : K) (e : entry R)
          (v : option K) (c' : cache K R),
-  insert K keqb R cap c k e v = Some c' -> (v <> None <-> (cap <= size K R c /\ c <> [])).
+  insert K keqb R cap c k e v = Some c' -> (v <> None <-> (cap <> 0 /\ cap <= size K R c /\ c <> [])).
 Proof. exact insert_evicts_iff. Qed.
 Print Assumptions C25_insert_evicts_iff.
 
@@ -98,7 +100,7 @@ Theorem C25_no_foreign_result :
   forall (R : Type) (cap : Z) (c : cache K R) (k : K) (e : entry R) (v : option K) (c' : cache K R)
          (k' : K) (r : R),
   insert K keqb R cap c k e v = Some c' -> get K keqb R c' k' = Some r ->
-  (k' = k /\ r = e_rows e) \/ (k' <> k /\ get K keqb R c k' = Some r).
+  (cap <> 0 /\ k' = k /\ r = e_rows e) \/ ((k' <> k \/ cap = 0) /\ get K keqb R c k' = Some r).
 Proof. exact get_insert_inv. Qed.
 Print Assumptions C25_no_foreign_result.
 
